@@ -21,6 +21,7 @@ type ConcScenario struct {
 	HashMode string `json:"hash_mode"` // det | collide | native
 	CollideN int    `json:"collide_n,omitempty"`
 	MinLen   int    `json:"min_len"` // min table length knob (32 = shipped)
+	MinCap   int    `json:"min_cap_floor,omitempty"` // MinCapacity floor knob of the cache constructors (0 or 96 = shipped)
 	Presize  int    `json:"presize"`
 	UsePre   bool   `json:"use_presized"`
 
@@ -149,6 +150,12 @@ func RunConc(sc *ConcScenario, want Want) *ConcResult {
 		res.probe("knob_unavailable", 1)
 	}
 	defer bridge.SetMinTableLen(32)
+	if sc.MinCap > 0 {
+		if !bridge.SetMinCapacity(sc.MinCap) && sc.MinCap != 96 {
+			res.probe("knob_unavailable", 1)
+		}
+		defer bridge.SetMinCapacity(96)
+	}
 
 	budget := uint64(3000000) // watchdog only (never a verdict)
 	sim := simrt.New(simrt.Config{Seed: sc.SchedSeed, Strategy: sc.Strategy, Epoch: sc.Epoch, StepBudget: budget, Replay: sc.Replay})
@@ -1115,7 +1122,7 @@ func (res *ConcResult) checkLedger(w *World, sc *ConcScenario, final map[int]key
 		// only Delete, GetAndDelete, DeleteExpired and the janitor may report
 		if rp.OpIx >= 0 {
 			switch w.recs[rp.OpIx].Op.K {
-			case CDelete, CGetAndDelete, CDeleteExpired:
+			case CDelete, CGetAndDelete, CDeleteExpired, XBulkDelete: // a bulk delete is a series of Delete calls
 			default:
 				res.add("ledger-wrong-call", -1, "callback fired inside %s", w.recs[rp.OpIx])
 			}
